@@ -6,7 +6,7 @@ From OV Require Import Base.Panic Base.Arith Model.Vector Model.Matrix Model.Spa
   Proofs.Iter Proofs.IterField Proofs.IterInst Proofs.IterR Proofs.IterRows.
 From OV Require Import Proofs.SparseBase Proofs.SparseMul Proofs.IterSparse Proofs.IterSparseErr Proofs.IterSparseR
   Proofs.IterSparseBreakdown Proofs.IterCGExamples.
-From OV Require Import Proofs.SparseBase Proofs.SparseMul Proofs.IterR Proofs.IterSparse Proofs.IterSparseR Proofs.IterSparseBreakdown Proofs.IterSparseBreakdownField
+From OV Require Import Proofs.SparseBase Proofs.SparseMul Proofs.IterR Proofs.IterSparse Proofs.IterSparseR Proofs.IterSparseBreakdown Proofs.IterSparseBreakdownField Proofs.IterSparseBreakdownQMR
   Proofs.IterCGVec Proofs.IterCGDim Proofs.IterCG Proofs.IterCGR Proofs.IterCGBi Proofs.IterCGSparse Proofs.IterCGExamples.
 Import ListNotations.
 Module C08.
@@ -747,5 +747,51 @@ Print Assumptions bicg_left_eigenvector_breakdown.
 Example bicg_left_eigenvector_breakdown_nonvacuous : wfS kq_s /\ @sp_tmul AQ kq_s [q 2 1; q (-2) 1] = Ok (@vscale AQ [q 2 1; q (-2) 1] (q 2 1)) /\
   is_divzero (@solve_bicg SAQ (@sp_mul AQ kq_s) (@sp_tmul AQ kq_s) 2 2 1 [q 2 1; q (-2) 1] [q 0 1; q 0 1] 140 (q 1 1000)) = true.
 Proof. split; [exact kq_s_wf|]. split; [exact kq_left_eigenvector | exact (proj1 kq_bicg_panics)]. Qed.
+
+(* the MECHANISM of the open finding solve_qmr/breakdown as a theorem, over R with the exact square root: if the initial residual is a left
+   eigenvector of A (A^T r0 = lam r0, lam <> 0, r0 <> 0), solve_qmr performs exactly ONE step -- the left Lanczos vector
+   w~ = A^T q - beta w vanishes identically -- and then either that step's test accepted (Ok 1; Ok 0 if the guess was accepted) or the
+   second iteration leaves through `rho == 0` / `xi == 0` with Err: whatever tol, budget >= 2, b.  No look-ahead, no restart *)
+Theorem qmr_left_eigenvector_breakdown : forall n (mulA mulAT : list R -> res (list R)), @LinOp AR n mulA -> @LinOp AR n mulAT -> @AdjOp AR n mulA mulAT ->
+  forall (b x0 ax : list R) (lam : R) max (tol : R),
+  length b = n -> length x0 = n -> mulA x0 = Ok ax ->
+  let r0 := @zipw AR Rminus b ax in
+  mulAT r0 = Ok (@vscale AR r0 lam) -> lam <> 0%R -> r0 <> repeat 0%R n ->
+  2 <= max ->
+  exists res x g, @solve_qmr SAR mulA mulAT n n b x0 max tol = Ok (res, x, g) /\
+    (res = IOk 0 \/ res = IOk 1 \/ (exists e, res = IErr e /\ (g_exit g = 20 \/ g_exit g = 21))).
+Proof. intros n mulA mulAT LO LOT ADJ b x0 ax lam max tol. exact (qmr_left_eigenvector_breakdown n mulA mulAT LO LOT ADJ b x0 ax lam max tol). Qed.
+Check qmr_left_eigenvector_breakdown : forall n (mulA mulAT : list R -> res (list R)), @LinOp AR n mulA -> @LinOp AR n mulAT -> @AdjOp AR n mulA mulAT ->
+  forall (b x0 ax : list R) (lam : R) max (tol : R),
+  length b = n -> length x0 = n -> mulA x0 = Ok ax ->
+  let r0 := @zipw AR Rminus b ax in
+  mulAT r0 = Ok (@vscale AR r0 lam) -> lam <> 0%R -> r0 <> repeat 0%R n ->
+  2 <= max ->
+  exists res x g, @solve_qmr SAR mulA mulAT n n b x0 max tol = Ok (res, x, g) /\
+    (res = IOk 0 \/ res = IOk 1 \/ (exists e, res = IErr e /\ (g_exit g = 20 \/ g_exit g = 21))).
+Print Assumptions qmr_left_eigenvector_breakdown.
+
+(* for the implementation's matrix type; the committed witness [[2,-1],[0,1]] x = (2,-2), x0 = 0 is an instance (lam = 2) -- strictly
+   diagonally dominant, condition number 3, and QMR cannot solve it for any tol below the residual of its first step *)
+Theorem qmr_left_eigenvector_breakdown_sparse : forall (s : sparse AR) (b x0 : list R) (lam : R) max (tol : R),
+  wfS s -> sp_rows s = sp_cols s -> length b = sp_rows s -> length x0 = sp_rows s ->
+  let r0 := @zipw AR Rminus b (@sp_apply AR s x0) in
+  @sp_tapply AR s r0 = @vscale AR r0 lam -> lam <> 0%R -> r0 <> repeat 0%R (sp_rows s) ->
+  2 <= max ->
+  exists res x g, @run_sparse SAR QMR s b x0 max tol = Ok (res, x, g) /\
+    (res = IOk 0 \/ res = IOk 1 \/ (exists e, res = IErr e /\ (g_exit g = 20 \/ g_exit g = 21))).
+Proof. intros s b x0 lam max tol. exact (qmr_left_eigenvector_breakdown_sparse s b x0 lam max tol). Qed.
+Check qmr_left_eigenvector_breakdown_sparse : forall (s : sparse AR) (b x0 : list R) (lam : R) max (tol : R),
+  wfS s -> sp_rows s = sp_cols s -> length b = sp_rows s -> length x0 = sp_rows s ->
+  let r0 := @zipw AR Rminus b (@sp_apply AR s x0) in
+  @sp_tapply AR s r0 = @vscale AR r0 lam -> lam <> 0%R -> r0 <> repeat 0%R (sp_rows s) ->
+  2 <= max ->
+  exists res x g, @run_sparse SAR QMR s b x0 max tol = Ok (res, x, g) /\
+    (res = IOk 0 \/ res = IOk 1 \/ (exists e, res = IErr e /\ (g_exit g = 20 \/ g_exit g = 21))).
+Print Assumptions qmr_left_eigenvector_breakdown_sparse.
+Example qmr_left_eigenvector_breakdown_sparse_nonvacuous : wfS kr_s /\ sp_rows kr_s = sp_cols kr_s /\
+  (let r0 := @zipw AR Rminus [2%R; (-2)%R] (@sp_apply AR kr_s [0%R; 0%R]) in
+   @sp_tapply AR kr_s r0 = @vscale AR r0 2%R /\ r0 <> repeat 0%R (sp_rows kr_s)).
+Proof. split; [exact kr_s_wf|]. split; [reflexivity | exact kr_left_eigenvector]. Qed.
 
 End C09.
